@@ -191,7 +191,7 @@ def project_case(r, lines):
             lines.append(dict(ev="Invoke", r=ev["r"], kind=ev["kind"], wf=False,
                               ents=[dict(k=x["k"], s=x["s"], t=x["t"], slot=x["slot"], root=x["root"], dom=x["dom"]) for x in ev["ents"]]))
         elif e == "Release":
-            lines.append(dict(ev="Release", r=ev["r"], i=ev["i"], k=ev["k"], kind=ev["kind"], s=ev["s"], t=ev["t"], slot=ev["slot"],
+            lines.append(dict(ev="Release", r=ev["r"], i=ev["i"], pos=ev.get("pos", ev["i"]), k=ev["k"], kind=ev["kind"], s=ev["s"], t=ev["t"], slot=ev["slot"],
                               root=ev["root"], dom=ev["dom"], ip="none"))
         elif e == "Respond":
             lines.append(dict(ev="Respond", r=ev["r"], res=ev["res"], sig=ev["sig"]))
@@ -271,7 +271,7 @@ def one_c11(job):
     os.makedirs(jd, exist_ok=True)
     db, db2 = os.path.join(jd, "db"), os.path.join(jd, "db2")
     sid = "C11-%d" % idx
-    world = dict(nkeys=len(hists))
+    world = dict(nkeys=len(hists) + 2)
     ops = []
     nsteps = max(len(h) for h in hists)
     for i in range(nsteps):
@@ -283,7 +283,14 @@ def one_c11(job):
                 ops.append(dict(id="k%ds%d" % (k, i), kind="att", by=st.get("by", "name"), ents=[dict(k=k, s=st["s"], t=st["t"], root=st["root"])]))
             elif st["op"] == "prop":
                 ops.append(dict(id="k%ds%d" % (k, i), kind="prop", by=st.get("by", "name"), ents=[dict(k=k, slot=st["slot"], root=st["root"])]))
-    scA = dict(id=sid, world=world, conc=conc, dir=db, keep_dir=True, ops=ops)
+    # two more keys whose only records are in the OLDER on-disk format (gob), with values that include zero
+    x1, x2 = len(hists), len(hists) + 1
+    legacy = [dict(k=x1, s=0, t=1 + idx % 3, slot=idx % 4), dict(k=x2, s=idx % 3, t=3, slot=0)]
+    prior = []
+    for lg in legacy:
+        prior.append(dict(k=lg["k"], kind="att", s=lg["s"], t=lg["t"], fmt="gob"))
+        prior.append(dict(k=lg["k"], kind="prop", slot=lg["slot"], fmt="gob"))
+    scA = dict(id=sid, world=world, conc=conc, dir=db, keep_dir=True, ops=ops, prior=prior)
     pre, rc, err = run_driver([scA], jd, tag="pre", timeout=120)
     if rc != 0:
         return dict(error="pre driver rc=%s %s" % (rc, err[-200:]))
@@ -296,7 +303,7 @@ def one_c11(job):
     if irc != 0:
         return dict(error="import of own export failed (exit %s): %s" % (irc, errtxt[-200:]))
     probes = []
-    for k in range(len(hists)):
+    for k in range(len(hists) + 2):
         probes += probes_for(k, 4, "q%d" % k)
     res = []
     for d in (db, db2):
@@ -306,7 +313,7 @@ def one_c11(job):
             return dict(error="probe driver rc=%s %s" % (rcx, errx[-200:]))
         res.append(evs)
     shutil.rmtree(jd, ignore_errors=True)
-    return dict(idx=idx, sid=sid, pre=pre, exported=exported, probes_a=res[0], probes_b=res[1], scenario=scA, hists=hists)
+    return dict(idx=idx, sid=sid, pre=pre, exported=exported, probes_a=res[0], probes_b=res[1], scenario=scA, hists=hists, legacy=legacy)
 
 
 def run_c11(tier, seed):
@@ -322,7 +329,7 @@ def run_c11(tier, seed):
         hists = [[st for st in h if st["op"] in ("att", "prop") and st["dom"] in ("att", "prop")] for h in hists]
         exe = build_harness("dirkdrv")
         build_dirk()
-        pubs = json.loads(subprocess.run([exe, "-pubkeys", "4"], stdout=subprocess.PIPE, text=True).stdout)
+        pubs = json.loads(subprocess.run([exe, "-pubkeys", "6"], stdout=subprocess.PIPE, text=True).stdout)
         concs = concretisations(3, seed, 0)
         jobs = []
         for i in range(0, len(hists) - 3, 4):
@@ -341,10 +348,13 @@ def run_c11(tier, seed):
             start = len(lines) + 1
             lines.append(dict(ev="Begin", sc=r["sid"]))
             signed = set()
+            for lg in r["legacy"]:
+                signed.add("k%d" % lg["k"])
+                lines.append(dict(ev="Floor", k="k%d" % lg["k"], s=lg["s"], t=lg["t"], slot=lg["slot"]))
             for ev in r["pre"]:
                 if ev["ev"] == "Release":
                     signed.add(ev["k"])
-                    lines.append(dict(ev="Release", r=ev["r"], i=ev["i"], k=ev["k"], kind=ev["kind"], s=ev["s"], t=ev["t"], slot=ev["slot"],
+                    lines.append(dict(ev="Release", r=ev["r"], i=ev["i"], pos=ev.get("pos", ev["i"]), k=ev["k"], kind=ev["kind"], s=ev["s"], t=ev["t"], slot=ev["slot"],
                                       root=ev["root"], dom=ev["dom"], ip="none"))
             bypub = {("0x" + p).lower(): "k%d" % i for i, p in enumerate(pubs)}
             seen = set()
